@@ -213,6 +213,27 @@ PROPS = {
         "level_note": "Trusted: Coq kernel, extraction, scripted-server harness and its timing slots. Modelled, not verified: "
                       "xClient.Broadcast/Fork/Inform, errors.MultiError.",
     },
+    "C14": {
+        "rule": "1200 (thorough 30000) random server sets with metadata from a grammar (state in {absent, active, inactive, empty, "
+                "repeated}, 0-2 repeated group values, unrelated keys, unparsable) x client group settings, filtered directly and "
+                "through a new XClient; 120 (thorough 2500) publication histories of 2-15 snapshots (35%% metadata-only changes) on a "
+                "running XClient over MultipleServersDiscovery, half of them with the watch loop stalled by a blocking selector so that "
+                "bursts overflow the watcher channel, all four stock strategies; distinct = distinct model-input line; non-trivial = "
+                "at least 2 servers / 3 snapshots",
+        "theorems": ["C14_converges_to_last_published", "C14_last_published_is_last_Pub", "C14_filter_keeps_exactly", "C14_keep_rule"],
+        "assumptions": ["url.ParseQuery's result is an input to the filter model (values of state and group, in order)",
+                        "a publication racing with NewXClient itself (between GetServices and WatchService) is outside the quantifier",
+                        "DNSDiscovery.lookup uses the same notifyWatcher after the repair but cannot be exercised offline: its tie to the "
+                        "model is by reading only",
+                        "convergence is awaited by polling the client's server set for at most 2 s"],
+        "trusted": ["/repo/client/verif_export.go: VerifXClientServers, VerifFilterByStateAndGroup, VerifXClientSelect"],
+        "level_text": "Theorem for every interleaving of publications with the watch loop's receptions over a bounded channel that drops "
+                      "its oldest snapshot when full: once updates stop and the loop has emptied the channel, the snapshot it applied "
+                      "last is the last one published; plus the filter rule as an iff. Selection from the applied set is C11. The models "
+                      "are run against MultipleServersDiscovery + XClient incl. stalled-watcher bursts that overflow the channel.",
+        "level_note": "Trusted: Coq kernel, extraction, harness (polling with a 2 s bound). Modelled, not verified: "
+                      "MultipleServersDiscovery.Update / notifyWatcher, xClient.watch, filterByStateAndGroup.",
+    },
     "C12": {
         "rule": "exhaustive weight vectors (quick: n<=3,w<=4 and n=4,w<=2; thorough: n<=4,w<=6) from a random window "
                 "offset, round-robin sets n=0..8 from every cursor offset, and random update/selection histories over a "
